@@ -67,6 +67,10 @@ def run(ctx):
     if rc != 0:
         raise common.BuildError("c14 pool harness failed: " + err[-2000:])
     lines = out.split("\n")[:-1]
+    rc, out, err = common.run_harness(bins["default"], ["cpool", str(n // 4)])
+    if rc != 0:
+        raise common.BuildError("c14 cpool harness failed: " + err[-2000:])
+    lines += out.split("\n")[:-1]
     exp = common.run_oracle("c14", lines)
     prog = []
     reused = False
@@ -78,10 +82,10 @@ def run(ctx):
         prog, reused, seen_ids = [], False, set()
     for line, e in zip(lines, exp):
         op, got = line.split(" = ")
-        if op.startswith("new"):
+        if op.startswith("new") or op.startswith("cnew"):
             flush()
         prog.append(op)
-        if op.startswith("get"):
+        if op.startswith("get") or op.startswith("cget"):
             i = got.split(" ")[0]
             if i != "0" and i in seen_ids:
                 reused = True
